@@ -238,11 +238,11 @@ func sameRefKey(a, b *kv.Key) bool {
 func run(c *vf.Ctx) {
 	c.Rule("A: grid key{rsa1024,rsa2048[,3072,4096],p256,p384,p521,ed25519(value and pointer)} x passphrase{none,'x',40 bytes} x comment{'',text, lengths 0..7 for every padding length}: " +
 		"Marshal -> reference decode (byte-for-byte for unencrypted) -> ParseRaw*/Parse* equal key, signer, 4 wrong passphrases, missing passphrase, ssh-keygen -y/-p; " +
-		"B: files of the reference encoder and of ssh-keygen (type x {plain,'x',40 bytes,aes256-cbc,rounds 1,3[,64]}) parse to the reference-decoded key; " +
+		"B: files of the reference encoder (unencrypted x every padding length; encrypted: cipher{aes256-ctr,aes256-cbc} x rounds{1,16[,2,3,64,2048]} x salt length x comment) and of ssh-keygen (type x {plain,'x',40 bytes,aes256-cbc,rounds 1,3[,64]}) parse to the reference-decoded key; " +
 		"C: every single fault of a valid unencrypted file per key type (outer key, each private/public field replaced or swapped, scalar d+n/-d/0/n-d, check-ints, every padding byte x3, nkeys, trailing, lengths); " +
 		"non-trivial = distinct (part,key,variant) that reached the comparison; oracle = reference openssh-key-v1 model + sign/verify + stored public key")
 	c.Assume("crypto/rsa, crypto/ecdsa, crypto/ed25519, math/big of the standard library are correct; ssh-keygen (when present) is OpenSSH 9.2")
-	c.Assume("encrypted files are decoded on the reference side only after ssh-keygen -p removed the passphrase (no independent bcrypt_pbkdf model is imported)")
+	c.Assume("encrypted files are decrypted on the reference side with the bcrypt_pbkdf model verif/ref/bcryptpbkdfref (KAT-validated, and sshkeyv1 reproduces ssh-keygen-encrypted files byte for byte) and AES-CTR/CBC built on crypto/aes")
 	c.Assume("DSA keys in openssh-key-v1 form and ciphers other than aes256-ctr/aes256-cbc are outside MarshalPrivateKey/ParseRawPrivateKey's documented support and only observed (must fail cleanly)")
 
 	seed := fmt.Sprint(c.Seed)
@@ -387,6 +387,16 @@ func oneA(c *vf.Ctx, t caseA, g *keygen, idx int) {
 		rounds := r.U32()
 		if f.Cipher != "aes256-ctr" || f.KDF != "bcrypt" || !r.Done() || len(salt) == 0 || rounds == 0 || f.NKeys != 1 || len(f.Priv)%16 != 0 || len(f.Trailing) != 0 {
 			c.Violation("written encrypted file: container fields not as PROTOCOL.key requires", det(map[string]any{"cipher": f.Cipher, "kdf": f.KDF, "rounds": rounds, "salt": len(salt), "privlen": len(f.Priv)}))
+		} else if sec, err := kv.Decrypt(f, t.pass); err != nil {
+			c.Violation("written encrypted file: reference cannot decrypt", det(err.Error()))
+		} else if es, err := kv.ParseSection(sec); err != nil {
+			c.Violation("written encrypted file: reference decryption (bcrypt_pbkdf model + AES-CTR) does not yield a private section", det(err.Error()))
+		} else if err := kv.WellFormedEncrypted(f, es); err != nil {
+			c.Violation("written encrypted file: not well-formed after reference decryption", det(err.Error()))
+		} else if err := kv.Consistent(f, es); err != nil {
+			c.Violation("written encrypted file: inconsistent after reference decryption", det(err.Error()))
+		} else if ek, err := kv.KeyOf(es); err != nil || !sameRefKey(ek, t.key.k) || es.Comment != t.comment {
+			c.Violation("written encrypted file decrypts (reference) to another key or comment", det(fmt.Sprint(err)))
 		}
 	}
 
@@ -446,6 +456,9 @@ func oneA(c *vf.Ctx, t caseA, g *keygen, idx int) {
 		wrong := [][]byte{[]byte("y"), append(append([]byte{}, t.pass...), 'x'), append([]byte("x"), t.pass...), c.Bytes("wrongpass", idx, 40)}
 		if len(t.pass) > 1 {
 			wrong = append(wrong, t.pass[:len(t.pass)-1])
+		}
+		if !c.Thorough {
+			wrong = append(wrong[:2], wrong[3:]...) // quick: drop one of the variants
 		}
 		for wi, w := range wrong {
 			fns := []func() (any, error){func() (any, error) { return ssh.ParseRawPrivateKeyWithPassphrase(pemText, w) }}
@@ -574,6 +587,7 @@ func partB(c *vf.Ctx, keys []tkey, g *keygen) {
 		c.Nontrivial(fmt.Sprintf("B1/%s/comment%d", t.k.name, len(t.cm)))
 	})
 
+	partB1enc(c, keys)
 	if !g.ok() {
 		return
 	}
@@ -696,6 +710,96 @@ func partB(c *vf.Ctx, keys []tkey, g *keygen) {
 		}
 		os.Remove(base)
 		os.Remove(base + ".pub")
+	})
+}
+
+// partB1enc: passphrase protected files written by the reference model (bcrypt_pbkdf model +
+// AES built on the block function), i.e. what ssh-keygen writes for -N pass [-Z aes256-cbc]
+// [-a rounds]: cipher x rounds x salt length x comment (padding to 16) x key type.
+func partB1enc(c *vf.Ctx, keys []tkey) {
+	type cs struct {
+		k       tkey
+		cipher  string
+		rounds  uint32
+		saltLen int
+		comment string
+		pass    []byte
+	}
+	var cases []cs
+	pass40 := []byte(base64.StdEncoding.EncodeToString(c.Bytes("refpass40", 0, 30)))
+	for _, k := range keys {
+		if k.k.Type == sr.RSA && k.name != "rsa1024" && !c.Thorough {
+			continue
+		}
+		for _, cipher := range []string{"aes256-ctr", "aes256-cbc"} {
+			rounds := []uint32{1, 16}
+			comments := []string{"", "12345"}
+			salts := []int{16}
+			if c.Thorough {
+				rounds = []uint32{1, 2, 3, 16, 64}
+				salts = []int{16, 1, 32}
+				comments = nil
+				for n := 0; n <= 15; n++ {
+					comments = append(comments, strings.Repeat("e", n))
+				}
+			}
+			for _, r := range rounds {
+				for _, sl := range salts {
+					for ci, cm := range comments {
+						p := []byte("x")
+						if ci%2 == 1 {
+							p = pass40
+						}
+						if c.Thorough && r == 64 && ci > 1 {
+							continue
+						}
+						cases = append(cases, cs{k, cipher, r, sl, cm, p})
+					}
+				}
+			}
+		}
+	}
+	if c.Thorough {
+		// the largest round count the parser accepts by design
+		cases = append(cases, cs{keys[len(keys)-1], "aes256-ctr", 2048, 16, "max rounds", []byte("x")})
+		for _, k := range keys {
+			if k.k.Type == sr.ED25519 {
+				cases[len(cases)-1].k = k
+			}
+		}
+	}
+	c.Set("reference_written_encrypted_files", len(cases))
+	c.ParallelFor(len(cases), func(i int) {
+		t := cases[i]
+		det := map[string]any{"key": t.k.name, "cipher": t.cipher, "rounds": t.rounds, "salt_len": t.saltLen, "comment_len": len(t.comment), "passphrase_len": len(t.pass)}
+		f, err := kv.NewEncryptedFile(t.k.k, t.comment, uint32(0xabcd0000+i), t.cipher, t.pass, c.Bytes("salt", i, t.saltLen), t.rounds)
+		if err != nil {
+			c.Violation("harness: reference cannot encrypt", map[string]any{"case": det, "err": err.Error()})
+			return
+		}
+		text := kv.Armor(f.Bytes())
+		wantPub := t.k.k.Public().Blob()
+		goParseBoth(c, "encrypted file from the reference encoder", det, text, t.pass, t.k.k, wantPub, c.Bytes("msgB1e", i, 20))
+		wrongs := [][]byte{append(append([]byte{}, t.pass...), '!'), []byte("y")}
+		if !c.Thorough {
+			wrongs = wrongs[:1]
+		}
+		for _, w := range wrongs {
+			_, err := ssh.ParseRawPrivateKeyWithPassphrase(text, w)
+			c.Eval(1)
+			if err != x509.IncorrectPasswordError {
+				c.Violation("wrong passphrase does not yield x509.IncorrectPasswordError", map[string]any{"case": det, "err": fmt.Sprint(err)})
+			}
+		}
+		_, err = ssh.ParseRawPrivateKey(text)
+		var pm *ssh.PassphraseMissingError
+		if !errors.As(err, &pm) || pm.PublicKey == nil || !bytes.Equal(pm.PublicKey.Marshal(), wantPub) {
+			c.Violation("encrypted file without passphrase: no PassphraseMissingError carrying the public key", map[string]any{"case": det, "err": fmt.Sprint(err)})
+		}
+		c.Nontrivial(fmt.Sprintf("B1enc/%s/%s/r%d/s%d/c%d", t.k.name, t.cipher, t.rounds, t.saltLen, len(t.comment)))
+		if c.WantSample() && t.cipher == "aes256-cbc" {
+			c.Sample(map[string]any{"part": "B (reference-written, encrypted)", "key": t.k.name, "cipher": t.cipher, "rounds": t.rounds, "comment_len": len(t.comment)})
+		}
 	})
 }
 
